@@ -100,6 +100,8 @@ func runC35(c *Ctx) {
 	PackagesStateFree(c, "codec-state-free", "plumbing/protocol/packp", "plumbing/protocol/capability")
 	checkDecodeAcceptsEncodeOrder(c, "decode-accepts-encoded-order", "plumbing/protocol/packp.(*UploadRequest).Encode", "plumbing/protocol/packp.(*UploadRequest).Decode")
 	c.Floor("decode-accepts-encoded-order", 8)
+	checkShallowLinesAccepted(c, "shallow-lines-accepted")
+	c.Floor("shallow-lines-accepted", 1)
 	const capShort = "plumbing/protocol/capability"
 	const r1 = "capability-tables"
 	known, req, multi := p.Func(capShort+".isKnown"), p.Func(capShort+".requiresArgument"), p.Func(capShort+".allowsMultipleArguments")
